@@ -191,6 +191,18 @@ class KeyedList(Generic[ItemType, KeyType], MutableSequence, KeyedBase):  # pyli
     def reverse(self):
         self._list.reverse()
 
+    def extend(self, values):
+        staged = {}
+        for value in list(values):
+            item, key = self._validate_item(value)
+            if key in self._dict or key in staged:
+                raise ValueError(
+                    f"Item with key `{repr(key)}` already in `{type_label(self._type)}`."
+                )
+            staged[key] = item
+        self._list.extend(staged.values())
+        self._dict.update(staged)
+
     def __contains__(self, value):
         try:
             if value in self._dict:
